@@ -265,7 +265,7 @@ def _column_groups(cfg):
     s = cfg['lst']
     la = ('list.a', lambda k: 1 + k)
     la1 = ('list.a.1', lambda k: 'x%d' % k)
-    lb = ('list.b', lambda k: 3.5 + k)
+    lb = ('list.slopes', lambda k: 3.5 + k)        # a name whose first letters are in the set 'list.'
     if s == 'a,a.1':
         add('lst', *la), add('lst', *la1)
     elif s == 'a':
@@ -281,7 +281,7 @@ def _column_groups(cfg):
             add('lst', 'list.a', (lambda k, j=j: 10 * j + k))
     elif s == 'a.0,a.1,a.2':
         for j in range(3):
-            add('lst', 'list.a.%d' % j, (lambda k, j=j: 'y%d_%d' % (j, k)))
+            add('lst', 'list.intervals.%d' % j, (lambda k, j=j: 'y%d_%d' % (j, k)))
     elif s == 'all-empty':
         add('lst', la[0], la[1], e=True), add('lst', la1[0], la1[1], e=True)
 
@@ -659,7 +659,29 @@ def _single_row_record(case, row, sig):
     return rec, True
 
 
-def _check(sheet, ctx, sig, case=None, fresh=True, differential=True):
+def _scribble(records):
+    """What a caller may legitimately do with the records it was given: edit them in place."""
+    import numpy as _np
+    for rec in records:
+        for k, v in list(rec.items()):
+            if isinstance(v, dict):
+                for kk in list(v):
+                    try:
+                        v[kk] = v[kk] + 1
+                    except TypeError:
+                        v[kk] = 'scribbled'
+                v['Zz'] = 99
+            elif isinstance(v, list):
+                v.append(12345)
+            elif isinstance(v, _np.ndarray):
+                try:
+                    v.fill(-777)
+                except (TypeError, ValueError):
+                    pass
+        rec['scribbled_by_caller'] = True
+
+
+def _check(sheet, ctx, sig, case=None, fresh=True, differential=True, scribble=False):
     """Read one sheet and compare it with the reference; `case` is what a violation records
     (the sheet itself, or the whole history of calls it belongs to)."""
     if case is None:
@@ -691,6 +713,8 @@ def _check(sheet, ctx, sig, case=None, fresh=True, differential=True):
         if bad:
             s2.update(key=bad[0])
         ok &= ctx.true('no empty cell appears in a record', not bad, s2, case, observed=bad, expected=[])
+    if scribble:
+        _scribble(out)          # the next call of the history must not see any of this
     # differential row isolation
     data = ref.data_rows(rows)
     if differential and len(data) > 1:
@@ -730,7 +754,7 @@ def _check_calls(case, ctx, sig):
                     a is not None and b is None for ra, rb in zip(prev['rows'], sheet['rows'])
                     for a, b in zip(ra, rb)):
                 ctx.tag('calls:empty-where-earlier-call-had-a-value')
-        ok &= bool(_check(sheet, ctx, sig, case=case, fresh=(n == 0), differential=False))
+        ok &= bool(_check(sheet, ctx, sig, case=case, fresh=(n == 0), differential=False, scribble=True))
         ctx.trans()
     return ok
 
